@@ -149,6 +149,9 @@ def requant(acc, m, e, zo, lo, hi):
 
 class Interp:
     def __init__(self, model, mul_mode=0):
+        # mul_mode is a number 0..3: bit 0 selects the MUL multiplier derivation, bit 1 the rounding of 16-bit convolutions with a 32-bit bias; the two
+        # ambiguities are independent, a caller that sees `ambiguous` set evaluates the combinations it needs (self.ambiguous_bits says which bits mattered)
+        self.ambiguous_bits = 0
         """mul_mode selects which of the two admissible MUL multiplier derivations is used (0: double arithmetic, 1: float32 arithmetic as the C++ kernel evaluates it);
         self.ambiguous is set when the choice changed any value, so that a caller can evaluate both references"""
         self.mul_mode = mul_mode
@@ -212,9 +215,12 @@ class Interp:
                 # rounding shift, or one round-half-up of the 64-bit product); both are admissible references
                 total = 31 - np.asarray(e, I64)
                 alt = np.clip(((acc.astype(I64) * np.asarray(m, I64) + (I64(1) << (total - 1))) >> total) + int(zo[0]), lo, hi)
+                if code == "FULLY_CONNECTED":
+                    return [out]  # the accelerator path of a fully connected layer keeps the doubling-high-multiply rounding of the 32-bit accumulator kernel
                 if not np.array_equal(alt, out):
                     self.ambiguous = True
-                return [alt if self.mul_mode else out]
+                    self.ambiguous_bits |= 2
+                return [alt if (self.mul_mode & 2) else out]
             return [out]
         if code == "TRANSPOSE_CONV":
             # inputs: output_shape, weights OHWI, input, [bias]
@@ -323,7 +329,8 @@ class Interp:
                 outs.append(np.clip(vec_mbqm(acc, m, e) + int(zo[0]), lo, hi))
             if not np.array_equal(outs[0], outs[1]):
                 self.ambiguous = True
-            return [outs[self.mul_mode]]
+                self.ambiguous_bits |= 1
+            return [outs[self.mul_mode & 1]]
         if code in ("MAXIMUM", "MINIMUM"):
             a, b = self.get(values, ins[0]).astype(I64), self.get(values, ins[1]).astype(I64)
             if (T[ins[0]]["scale"], T[ins[0]]["zp"]) != (T[ins[1]]["scale"], T[ins[1]]["zp"]) or (T[ins[0]]["scale"], T[ins[0]]["zp"]) != (ot["scale"], ot["zp"]):
